@@ -860,6 +860,7 @@ func c09R5(ic *IC, r *Report) {
 		})
 		return found
 	}
+	var installAt *ast.AssignStmt
 	ast.Inspect(run.Decl.Body, func(n ast.Node) bool {
 		as, ok := n.(*ast.AssignStmt)
 		if !ok {
@@ -891,9 +892,24 @@ func c09R5(ic *IC, r *Report) {
 				}
 			}
 			installs = dirOK && chanOK
+			if installs {
+				installAt = as
+			}
 		}
 		return true
 	})
+	// the case is installed for every run: the statement dominates the execution of the code
+	// (the root frame persists across evaluations and would otherwise keep the channel of the
+	// interpreter's first evaluation, closed for good after one cancellation, or never closed
+	// by the cancellation of a later one)
+	if installAt != nil {
+		fg := buildFlow(run.Decl.Body, ic.Info)
+		for _, rc := range callsIn(ic.Info, run.Decl.Body, false, "interp.runCfg") {
+			d, ok := fg.dominates(installAt, rc)
+			r.Check(ok && d, "R09.5", "run/installs-done/for-every-run", ic.pos(installAt.Pos()), "the installation dominates the execution",
+				"(*Interpreter).run installs the cancellation case of the frame only on some paths (the statement at "+ic.pos(installAt.Pos())+" does not dominate runCfg): a frame that already carries a case, i.e. the persistent root frame after the interpreter's first evaluation, keeps the old channel, so goroutines blocked in channel operations during a later evaluation are never woken by its cancellation")
+		}
+	}
 	r.Check(installs, "R09.5", "run/installs-done", ic.pos(run.Decl.Pos()), "f.done = SelectCase{Dir: SelectRecv, Chan: ValueOf(interp.done)}",
 		"(*Interpreter).run does not install a receive case on Interpreter.done into frame.done: channel operations of this run do not race the cancellation channel")
 	// the *WithContext entry points create a fresh done channel before starting
